@@ -15,6 +15,11 @@ The FILE the user starts from varies in what `write_shelx_file()` does not write
 continuation lines, a second SFAC/FVAR line, SHELXL's own header lines, REM lines, Q-peaks): the list in memory before
 the run and the list after the reload then differ in length above and below UNIT.
 
+The BYTES of that file vary too (`file_bytes`: CR LF, lone CR, both, no final line end, UTF-8 outside ASCII, blanks at
+line ends; the stand-in can write its result with CR LF), and so do the NAME of the job (dots, a blank, capitals, a
+non-ASCII letter) and the way the path is given to `read_file()` (relative, absolute, './', a pathlib.Path): files are
+compared by content hash under the case's own name.
+
 Streams (DESIGN 3.2):
   protocol   implementation vs model (`refine Fix.all` in ShelxModel/C19.lean): .res/.shx-bak by content, the .ins parsed
              back, shxsaves/, in-memory ACTA position / cycles / rest of the model, raised or returned
@@ -929,11 +934,12 @@ def random_cases(rng, n):
 def run(ctx):
     ctx.rule = ('one case = a freshly read file (ACTA absent / directly after UNIT / two lines later / last before FVAR; one or '
                 'two FVAR lines; L.S. or CGLS in every parameter form; 11 shapes: blank lines at six places, SFAC continued or '
-                'repeated, SYMM lines, a continuation line behind UNIT, SHELXL\'s own header lines and Q-peaks) in a directory '
+                'repeated, SYMM lines, a continuation line behind UNIT, SHELXL\'s own header lines and Q-peaks; bytes LF / CR LF / CR / mixed / no final line end / UTF-8 / trailing blanks; base name c19job or one with '
+                'dots, a blank, capitals, a leading digit, a non-ASCII letter; path relative / absolute / ./ / pathlib.Path) in a directory '
                 '(with or without an old .shx-bak, with or without .hkl) + 1..3 refine() calls (optionally with a '
                 'reload()/read_file() of a rewritten .res between them), each with an outcome of the stand-in (status 0 / exit '
                 '1,3,127,255 / killed by signal 6,9,11,15 x .res written from .ins / in SHELXL\'s layout / empty / removed / '
-                'untouched / garbage / truncated x .lst good / 8-bit / CRLF / missing / a directory / short / empty / no-LATT / '
+                'written with CR LF / untouched / garbage / truncated x .lst good / 8-bit / CRLF / missing / a directory / short / empty / no-LATT / '
                 'no-final / binary / zero parameters / low ratio x output banner / full / none / 8-bit / binary / short R1 / '
                 '"cannot open hkl"), backup on/off, cycles None/0/2..9; one evaluation per call, distinct by the history up to '
                 'it; non-trivial = the stand-in was actually started in that call')
